@@ -8,6 +8,7 @@ import struct
 import uuid as _uuid
 from fractions import Fraction
 
+from .. import history
 from ..core import Op, jkey
 from ..rat import rat
 
@@ -32,7 +33,11 @@ THEOREMS = [_T + n for n in [
     "C19_key_of_term_from_key", "C19_term_from_key_inj", "C19_tag_init", "C19_feature_init",
     "C19_key_tags_faithful", "C19_key_vocab_nodup",
     "C19_hashdict_sound", "C19_hashdict_needs_contract", "C19_encoder_on_hash_table",
-    "C19_pyeq_canonical", "C19_pyeq_equivalence", "C19_pyhash_respects_eq", "C19_pyhash_reads_only"]]
+    "C19_pyeq_canonical", "C19_pyeq_equivalence", "C19_pyhash_respects_eq", "C19_pyhash_reads_only",
+    # follow-up 3: construction paths and histories
+    "C19_extras_eq_iff_perm", "C19_extras_canonical", "C19_term_paths", "C19_order_hash_breaks",
+    "C19_call_binding", "C19_find_call_styles",
+    "C19_history_cache_sound", "C19_history_cache_stale", "C19_history_hash_now", "C19_history_hash_stale"]]
 LEVEL_TEXT = ("Lean theorems over a model of the encoder as the Python dict it is (insertion-ordered association list, "
               "later equal key overwrites; proved equal to a hash table that compares hashes first whenever ==-equal keys "
               "hash equally): for duplicate-free vocabularies encode = i iff the tag is the i-th vocabulary "
@@ -51,27 +56,53 @@ LEVEL_TEXT = ("Lean theorems over a model of the encoder as the Python dict it i
               "user-defined encoder table x tag list, all pairs of one-field perturbations of the eight hashable classes "
               "(== against the model, a == b => hash(a) == hash(b) on the real objects, also for objects holding unvalidated "
               "ints / signed zeros), regenerated field tables, and the hand-written __hash__ methods run on opaque "
-              "field values (what they hash, for all values) with the hash theorem instantiated on the extracted table.")
+              "field values (what they hash, for all values) with the hash theorem instantiated on the extracted table. "
+              "Follow-up 3: the extras of a Term are modelled as the insertion-ordered dict they are (dict == is equality of "
+              "the key-sorted items, so two terms built through any path / order are == iff their canonical model terms "
+              "are equal, then hash alike and are found by the encoder; a hash folding the extras in insertion order breaks "
+              "this), Python's call binding with the documented parameter order of find_tag / find_feature / the encodings "
+              "as regenerated tables (positional call = keyword call in any order), and histories: a memo table keyed by "
+              "the full input is invisible while one keyed by a part answers a neighbour wrongly, an object that drops its "
+              "memoised hash on every change hashes as its content now while cached_property-style memos go stale. Tied by "
+              "all ordered pairs of construction recipes per hashable class (constructor, model_validate, JSON, copies, "
+              "extras in every order, explicit None), histories of calls on shared / reused / changed objects judged step "
+              "by step by the pure model, size thresholds and float32 store boundaries.")
 LEVEL_NOTE = ("Trusted: Lean kernel; CPython dict/tuple/str/float/UUID hashing and equality (probing order of dict "
               "abstracted: every entry with the probe's hash is compared); pydantic BaseModel.__eq__ is "
               "observed, not modelled from source; numpy float32 store (its value is computed by the harness with "
               "struct and handed to the model) and numpy / list index rule (monitored as contracts). Unmodelled: "
               "vocabularies with repeated tags (outside the quantifier; "
               "the model covers them, the check does not compare them), NaN feature values (PyVal floats are finite), "
-              "hash traces cannot see id()/type() of a field value (identity dependence is observed on two instances). "
+              "hash traces cannot see id()/type() of a field value (identity dependence is observed on two instances); a "
+              "vocabulary list or vocabulary tag objects changed by the caller while an encoder built on them is alive "
+              "(SimpleEncoder keeps the caller's sequence: decode follows it, encode the snapshot; noted, not compared); "
+              "subclasses of Tag; model_construct. "
               "Model tied to the code by regenerated obligations and generator-bounded correspondence.")
 TECHNIQUE = ("Lean 4 proof over model (dict as association list = hash table under the contract, fill loops over any "
              "encoder with numpy's index rule, find_tag, key= path, raw Python values and parametric hashes); field tables "
              "regenerated by introspection and one-field perturbation; __hash__ methods executed on opaque leaves (tie 1b) "
              "and the hash theorem instantiated on the extracted table; exhaustive small-scope correspondence on the real "
              "encoder and on user-defined encoders; eq/hash monitor on the real classes; purity / list-vs-tuple / reuse "
-             "probes on every call")
+             "probes on every call; construction-path products (RawTerm model of the extras), call styles against the "
+             "documented signatures (bindCall), histories through harness/history.py judged per step by the pure model "
+             "(memo-table and memoised-hash theorems), size-threshold and float32-boundary sweeps")
 RULE = ("exhaustive vocabularies (<= 4 distinct tags) x tag / predicted-tag lists over an adversarial pool (terms sharing "
         "name or label, optional-field and extra-field variants, empty values, case / blank / Unicode-composition variants "
         "of values), random longer ones, every encoder table of 3 tags into {skip, 0..K-1} (K <= 2) x tag lists, all "
         "ordered pairs of one-field perturbations per hashable class, raw int/float/signed-zero variants reached by "
         "model_copy(update) / setattr / model_construct; non-trivial = some tag was encoded / the vector is non-zero / the "
-        "pair compares equal or differs in exactly one field / a tag was found; distinct = distinct (operation, input)")
+        "pair compares equal or differs in exactly one field / a tag was found; distinct = distinct (operation, input); "
+        "follow-up 3: per hashable class all ordered pairs of construction recipes (constructor in both keyword orders, "
+        "model_validate of objects / plain data, model_validate_json, extras via model_copy(update), explicit None, copy / "
+        "deepcopy / pickle / model_copy shallow and deep of a hashed object; the extras of every term in every order) on the "
+        "base object and on one with 2-3 extras, pool neighbours through random recipes, all ordered pairs of 29 extras "
+        "item lists x 4 ways (extras_eq); histories (3-5 steps: x, a neighbour of x, x again; fresh / reused objects changed by "
+        "assignment, model_copy(update) shallow and deep, copy.copy + assignment, the same list refilled; returned arrays "
+        "poisoned; earlier results read again at the end) for the encoder, the three encodings, find_tag, find_feature; "
+        "vocabularies and lists of 15..17 / 255..257 / 1023..1025 elements; float32 ties, denormals and their binary64 "
+        "neighbours; scores as int / bool / numpy scalars; vocabularies as list / tuple / deque / object array / user "
+        "Sequence; keyword, positional and mixed calls; encoders whose num_classes is an instance / class attribute, a "
+        "property, a slot, a namedtuple or dataclass field; one uuid shared across kinds")
 TRUSTED = ["CPython dict, tuple, str, float and UUID hashing/equality",
            "pydantic-core construction of the data objects (observed through __dict__ / __pydantic_extra__)",
            "numpy float32 assignment (value recomputed with struct.pack('f') and monitored as a contract)",
@@ -81,8 +112,17 @@ ASSUMPTIONS = ["the walk of an object (class name, declared fields in order, ext
                "pydantic's __eq__ compares (no private attributes in soundevent.data: monitored by the table obligation)",
                "string / UUID hashes of the distinct perturbation values differ (2^-64 collision probability)",
                "a __hash__ that runs on opaque leaves (no ==, bool, str, len, ordering of a field value) treats real "
-               "field values the same way (no branching on id()/type(), which a leaf cannot intercept)"]
+               "field values the same way (no branching on id()/type(), which a leaf cannot intercept)",
+               "the keys of a term's extras are distinct (a Python dict) and Python's sorted() orders str keys by code point as "
+               "Lean's String order does (the model checks `canon_is_sent` on every extras_eq case)",
+               "oracle independence: every expected value is a reply of the Lean model or a relation between two observations "
+               "the property states (== => same hash, encoder follows ==); `from soundevent` imports are constructors, the "
+               "functions under test, and introspection for the regenerated tables"]
 NOT_COMPARED = ["vocabularies with repeated tags (the property quantifies over distinct tags; dict keeps the last index)",
+                "a vocabulary sequence / vocabulary tag objects changed by the caller while the encoder built on them is alive: "
+                "SimpleEncoder keeps the caller's sequence (decode reads it, encode the dictionary built at creation); in "
+                "histories decode is read once, right after creation",
+                "construction paths that do not reproduce the content (the library's validation changed it): skipped and tallied",
                 "prediction vectors when one vocabulary tag (one index) is predicted with two different scores: only "
                 "`holdsPrediction` (entry is one of that tag's scores) is required there",
                 "encoder indices outside [0, n) and decode outside [0, n): compared (numpy / list index rule) but not fixed "
@@ -108,30 +148,43 @@ def term_desc(label, name, definition="d", type_of_term="property", extra=None, 
     return d
 
 
-def mk_term(d):
+_BY_ID = {}           # (kind, id(descriptor)) -> (descriptor, object): the pool descriptors are shared dict objects
+
+
+def _by_id(kind, d, make):
+    e = _BY_ID.get((kind, id(d)))
+    if e is not None and e[0] is d:
+        return e[1]
+    o = make(d)
+    _BY_ID[(kind, id(d))] = (d, o)
+    return o
+
+
+def _new_term(d):
     from soundevent import data
-    k = "T" + jkey(d)
-    if k not in _CACHE:
-        kw = {}
-        for f, v in d.items():
-            if f == "extra":
-                continue
-            fi = data.Term.model_fields[f]
-            kw[fi.alias or f] = v
-        for ek, ev in d["extra"]:
-            kw[ek] = ev
-        _CACHE[k] = data.Term(**kw)
-    return _CACHE[k]
+    kw = {}
+    for f, v in d.items():
+        if f == "extra":
+            continue
+        fi = data.Term.model_fields[f]
+        kw[fi.alias or f] = v
+    for ek, ev in d["extra"]:
+        kw[ek] = ev
+    return data.Term(**kw)
+
+
+def mk_term(d):
+    return _by_id("T", d, _new_term)
+
+
+def _new_tag(d):
+    # a fresh Term object per tag: equality must not lean on identity
+    from soundevent import data
+    return data.Tag(term=_new_term(d["term"]), value=d["value"])
 
 
 def mk_tag(d):
-    from soundevent import data
-    k = "G" + jkey(d)
-    if k not in _CACHE:
-        # a fresh Term object per tag: equality must not lean on identity
-        _CACHE.pop("T" + jkey(d["term"]), None)
-        _CACHE[k] = data.Tag(term=mk_term(d["term"]), value=d["value"])
-    return _CACHE[k]
+    return _by_id("G", d, _new_tag)
 
 
 def tag_to_desc(tag):
@@ -232,6 +285,16 @@ POOL = CORE + [{"term": T4, "value": "dog"}, {"term": T5, "value": ""}, {"term":
                {"term": T0, "value": "Dog"}, {"term": T0, "value": "dog "},
                {"term": T0, "value": "caf\u00e9"}, {"term": T0, "value": "cafe\u0301"}]
 SCORES = [0.0, 1.0, 0.25, 0.1, 1 / 3, 2.0 ** -30, 1 - 2.0 ** -53, 5e-324, 0.7]
+# follow-up 3: the binary64 -> binary32 store at its boundaries: exact ties between two binary32 neighbours (round to
+# even), one ulp of binary64 on either side of a tie, the smallest binary32 denormal and the tie below it, the
+# binary32 value of 0.1 (another binary64 number that is stored like 0.1)
+_T1 = 1 - 2.0 ** -25                      # tie between 1 - 2^-24 and 1.0 -> 1.0
+_T2 = 0.5 + 2.0 ** -25                    # tie between 0.5 and 0.5 + 2^-24 -> 0.5
+_T3 = 0.5 + 3 * 2.0 ** -25                # tie between 0.5 + 2^-24 and 0.5 + 2^-23 -> 0.5 + 2^-23
+SCORES_EDGE = [_T1, math.nextafter(_T1, 0), math.nextafter(_T1, 2), 1 - 2.0 ** -24, _T2, math.nextafter(_T2, 0),
+               math.nextafter(_T2, 1), _T3, math.nextafter(_T3, 0), math.nextafter(_T3, 1), 2.0 ** -149, 2.0 ** -150,
+               math.nextafter(2.0 ** -150, 1), 3 * 2.0 ** -150, 2.0 ** -126, 2.0 ** -126 - 2.0 ** -150,
+               struct.unpack("f", struct.pack("f", 0.1))[0], math.nextafter(0.1, 1), 1 - 2.0 ** -24 - 2.0 ** -26]
 
 
 def f32(x):
@@ -244,22 +307,100 @@ def pred_desc(tag, score):
 
 
 # ------------------------------------------------------------------ implementations
+def _salt(inp):
+    """a small number that depends on the input only (replays make the same choices)"""
+    n = 0
+    for k in ("vocab", "tags", "preds", "features"):
+        seq = inp.get(k, ())
+        n += 5 * len(seq)
+        for i, t in enumerate(seq):
+            t = t.get("tag", t)
+            tm = t["term"]
+            n += (i + 1) * (len(t["value"]) + len(tm["label"]) + len(tm["name"]) + 3 * len(tm["extra"]) + len(tm))
+    return n
+
+
+class _Seq:
+    """a user-defined collections.abc.Sequence (neither list nor tuple)"""
+
+    def __init__(self, items):
+        self._items = list(items)
+
+    def __len__(self):
+        return len(self._items)
+
+    def __getitem__(self, i):
+        return self._items[i]
+
+
+import collections.abc as _abc  # noqa: E402
+_abc.Sequence.register(_Seq)
+CONTAINERS = ["list", "tuple", "deque", "ndarray", "sequence"]
+
+
+def _container(items, k):
+    """the same items in another kind of Sequence: list, tuple, deque, numpy object array, user-defined Sequence"""
+    kind = CONTAINERS[k % len(CONTAINERS)]
+    if kind == "list":
+        return list(items)
+    if kind == "tuple":
+        return tuple(items)
+    if kind == "deque":
+        import collections
+        return collections.deque(items)
+    if kind == "ndarray":
+        import numpy as np
+        a = np.empty(len(items), dtype=object)
+        for i, x in enumerate(items):
+            a[i] = x
+        return a
+    return _Seq(items)
+
+
+PATH_CYCLE = [{"via": "json", "k": 1}, {"via": "validate_plain", "k": 2}, {"via": "model_copy_deep", "k": 3, "from": "json"},
+              {"via": "init_rev", "k": 4}, {"via": "pickle", "k": 5, "from": "validate_plain"}, {"via": "extras_update", "k": 1},
+              {"via": "explicit_none", "k": 0}, {"via": "deepcopy", "k": 2, "from": "init_rev"}, {"via": "validate", "k": 5}]
+
+
+def _tag_tree(d):
+    return _by_id("W", d, lambda d: walk(_new_tag(d)))
+
+
+def _tag_via(d, j):
+    """an equal tag that came to exist in another way (from a JSON document, a validated dict, a deep copy of an
+    object that was hashed, with the extras of its term in another order, ...); one object per (descriptor, way)"""
+    j %= len(PATH_CYCLE)
+    return _by_id("V%d" % j, d, lambda d: obtain(_tag_tree(d), PATH_CYCLE[j]))
+
+
+def _vocab_objs(inp):
+    s = _salt(inp)
+    if s % 3 == 1:
+        return [_tag_via(t, s + i) for i, t in enumerate(inp["vocab"])]
+    return [mk_tag(t) for t in inp["vocab"]]
+
+
+def _tag_objs(inp):
+    """the tags of a classification / multilabel input; with "xk" the extras of their terms in the xk-th order"""
+    if inp.get("xk"):
+        return [_fresh_via(_tag_tree(t), "init", inp["xk"]) for t in inp["tags"]]
+    return [mk_tag(t) for t in inp["tags"]]
+
+
 def _encoder(inp):
     from soundevent.evaluation import encoding
-    vocab = [mk_tag(t) for t in inp["vocab"]]
-    # the vocabulary is a Sequence: a list for one input, a tuple for the next
-    return encoding.create_tag_encoder(vocab if len(jkey(inp)) % 2 else tuple(vocab))
+    # the vocabulary is a Sequence: a list, a tuple, a deque, an object array, a user-defined Sequence
+    return encoding.create_tag_encoder(_container(_vocab_objs(inp), _salt(inp)))
 
 
 def _fresh_tag(d):
     """a tag object of its own (never the cached one), so that nothing can lean on identity"""
-    from soundevent import data
-    return data.Tag(term=_fresh_term(d["term"]), value=d["value"])
+    return _new_tag(d)
 
 
 def _impl_encoder(inp):
     from soundevent.evaluation import encoding
-    vocab = [mk_tag(t) for t in inp["vocab"]]
+    vocab = _vocab_objs(inp)
     snapshot = list(vocab)
     enc = encoding.create_tag_encoder(vocab)
     n = enc.num_classes
@@ -272,6 +413,21 @@ def _impl_encoder(inp):
     if not (first == again == temp == other):
         raise AssertionError("encode is not a function of the vocabulary and the tag: %r %r %r %r"
                              % (first, again, temp, other))
+    # follow-up 3: equal tags that came to exist in other ways (JSON, validated dict, copies, extras reordered), the
+    # vocabulary in another kind of Sequence, the function called with keywords
+    s = _salt(inp)
+    if s % 2 == 0 or inp.get("paths") == "all":
+        rounds = range(len(PATH_CYCLE)) if inp.get("paths") == "all" else [s]
+        for r in rounds:
+            via = [enc.encode(_tag_via(t, r + i)) for i, t in enumerate(inp["tags"])]
+            if via != first:
+                raise AssertionError("equal tags obtained through other construction paths are encoded differently: %r %r"
+                                     % (first, via))
+        enc2 = encoding.create_tag_encoder(tags=_container(snapshot, s))
+        cont = [enc2.encode(mk_tag(t)) for t in inp["tags"]]
+        if cont != first or enc2.num_classes != n:
+            raise AssertionError("a vocabulary given as a %s is encoded differently: %r %r"
+                                 % (CONTAINERS[s % len(CONTAINERS)], first, cont))
     if len(vocab) != len(snapshot) or any(a is not b for a, b in zip(vocab, snapshot)):
         raise AssertionError("the encoder changed the vocabulary list it was given")
     if any(type(e) is not int for e in first if e is not None):
@@ -290,14 +446,14 @@ def _full(d):
 
 def _impl_classification(inp):
     from soundevent.evaluation import encoding
-    r = _twice(encoding.classification_encoding, [mk_tag(t) for t in inp["tags"]], _encoder(inp))
+    r = _twice(encoding.classification_encoding, _tag_objs(inp), _encoder(inp), salt=_salt(inp), kw=ENC_SIG)
     return None if r is None else int(r)
 
 
 def _impl_multilabel(inp):
     from soundevent.evaluation import encoding
     import numpy as np
-    r = _twice(encoding.multilabel_encoding, [mk_tag(t) for t in inp["tags"]], _encoder(inp), same=_arr_same)
+    r = _twice(encoding.multilabel_encoding, _tag_objs(inp), _encoder(inp), same=_arr_same, salt=_salt(inp), kw=ENC_SIG)
     assert r.ndim == 1 and r.dtype.kind in "iub"
     return [int(x) for x in r]
 
@@ -310,10 +466,40 @@ def _impl_prediction(inp):
     for p in inp["preds"]:
         s = float(Fraction(p["score"]))
         assert rat(f32(s)) == p["score32"], "stale score32 in input"
-        preds.append(data.PredictedTag(tag=mk_tag(p["tag"]), score=s))
-    r = _twice(encoding.prediction_encoding, preds, _encoder(inp), same=_arr_same)
+        how = (_salt(inp) + len(preds)) % 5
+        if how == 3:                                   # the prediction parsed from plain data / from a JSON document
+            preds.append(data.PredictedTag.model_validate({"tag": _plain(_tag_tree(p["tag"]), len(preds)), "score": s}))
+        elif how == 4:
+            import json
+            preds.append(data.PredictedTag.model_validate_json(
+                json.dumps({"score": s, "tag": _plain(_tag_tree(p["tag"]), len(preds) + 1)})))
+        else:
+            preds.append(data.PredictedTag(tag=mk_tag(p["tag"]), score=_as_num(s, inp.get("num"))))
+        assert type(preds[-1].score) is float and preds[-1].score == s, "the score was not stored as the float given"
+    r = _twice(encoding.prediction_encoding, preds, _encoder(inp), same=_arr_same, salt=_salt(inp), kw=ENC_SIG)
     assert r.ndim == 1 and r.dtype == np.float32
     return [rat(float(x)) for x in r]
+
+
+NUM_STYLES = ["float", "int", "bool", "np.float64", "np.float32", "np.int64"]
+
+
+def _as_num(x, style):
+    """the same number handed over as another numeric type, where that type holds it exactly (else as the float)"""
+    import numpy as np
+    if style in (None, "float"):
+        return x
+    if style == "int" and x == int(x):
+        return int(x)
+    if style == "bool" and x in (0.0, 1.0):
+        return bool(x)
+    if style == "np.float64":
+        return np.float64(x)
+    if style == "np.float32" and f32(x) == x:
+        return np.float32(x)
+    if style == "np.int64" and x == int(x):
+        return np.int64(int(x))
+    return x
 
 
 def _open_prediction(inp):
@@ -367,8 +553,7 @@ def _impl_tag_eq(inp):
     from soundevent.evaluation import encoding
     a, b = mk_tag(inp["a"]), mk_tag(inp["b"])
     # second, independently constructed copy: equality must not depend on identity
-    _CACHE.pop("G" + jkey(inp["b"]), None)
-    b2 = mk_tag(inp["b"])
+    b2 = _new_tag(inp["b"])
     r = (a == b)
     if (b == a) != r or (a == b2) != r:
         raise AssertionError("Tag.__eq__ is not symmetric / depends on identity")
@@ -395,7 +580,12 @@ def _holds_tag_eq(ctx, inp, io):
 
 # (re-validating a dump is not among them: a Term dumps under its field names but validates under its aliases,
 #  so `Tag.model_validate(tag.model_dump())` is a different object on the pinned tree — outside this property)
-HOWS = ["setattr", "model_copy_update", "model_copy", "copy", "deepcopy", "pickle"]
+HOWS = ["setattr", "model_copy_update", "model_copy", "copy", "deepcopy", "pickle",
+        # follow-up 3 (HISTORIES.md section 1): a deep copy with an update, a shallow copy.copy that is then assigned to, a
+        # detour (changed to the origin's content, hashed, changed back), list fields rewritten in place
+        "deep_copy_update", "copycopy_assign", "detour", "inplace_list"]
+DERIVED_HOWS = ("setattr", "model_copy_update", "deep_copy_update", "copycopy_assign", "detour", "inplace_list")
+MUTATING_HOWS = ("setattr", "copycopy_assign", "detour")
 
 
 def _derive(tree, origin, how):
@@ -406,14 +596,43 @@ def _derive(tree, origin, how):
     src = build(origin if origin is not None else tree)
     hash(src)                                            # e.g. it sat in a set before
     cls = type(src)
-    if how in ("setattr", "model_copy_update"):
+    if how in DERIVED_HOWS:
         target = build(tree)
         diff = {n: target.__dict__[n] for n in cls.model_fields if walk(target.__dict__[n]) != walk(src.__dict__[n])}
         if how == "setattr":
             for n, v in diff.items():
                 setattr(src, n, v)
             return src
-        return src.model_copy(update=diff)
+        if how == "model_copy_update":
+            return src.model_copy(update=diff)
+        if how == "deep_copy_update":
+            return src.model_copy(update=diff, deep=True)
+        if how == "copycopy_assign":
+            c = copy.copy(src)
+            for n, v in diff.items():
+                setattr(c, n, v)
+            hash(src)
+            return c
+        if how == "detour":
+            # `src` carries the origin's content; the object we want starts with the content of `tree`, takes the
+            # detour through the origin's content (and is hashed there), and comes back
+            obj = build(tree)
+            hash(obj)
+            back = {n: obj.__dict__[n] for n in diff}
+            for n in diff:
+                setattr(obj, n, src.__dict__[n])
+            hash(obj)
+            for n, v in back.items():
+                setattr(obj, n, v)
+            return obj
+        if how == "inplace_list":
+            # list fields are rewritten in place (`lst[:] = ...`), the other fields are assigned
+            for n, v in diff.items():
+                if isinstance(src.__dict__[n], list) and isinstance(v, list):
+                    src.__dict__[n][:] = v
+                else:
+                    setattr(src, n, v)
+            return src
     if how == "model_copy":
         return src.model_copy()
     if how == "copy":
@@ -434,6 +653,21 @@ def _strip_omit(t):
 
 
 def _impl_eq_hash(inp):
+    if inp.get("pa") or inp.get("pb"):
+        # follow-up 3: both objects through a construction path; a path that does not reproduce the content (the
+        # library's validation changed it) is not this property's business: the case is skipped, and tallied
+        objs = []
+        for side, rk in (("a", "pa"), ("b", "pb")):
+            o = obtain(inp[side], inp.get(rk) or {})
+            if _strip_omit(walk(o)) != _strip_omit(inp[side]):
+                return {"skip": f"path {jkey(inp.get(rk))} does not reproduce the content of {side}"}
+            objs.append(o)
+        a, b = objs
+        r = (a == b)
+        if (b == a) != r:
+            raise AssertionError("__eq__ is not symmetric")
+        return {"eq": bool(r), "hash_eq": hash(a) == hash(b), **_membership(a, b), **_encoder_follows(a, b),
+                "extras_order": [_extras_items(a), _extras_items(b)]}
     if inp.get("how"):
         a = _derive(inp["a"], inp.get("origin"), inp["how"])
         if _strip_omit(walk(a)) != _strip_omit(inp["a"]):
@@ -448,7 +682,8 @@ def _impl_eq_hash(inp):
     r = (a == b)
     if (b == a) != r:
         raise AssertionError("__eq__ is not symmetric")
-    return {"eq": bool(r), "hash_eq": hash(a) == hash(b), **_membership(a, b)}
+    return {"eq": bool(r), "hash_eq": hash(a) == hash(b), **_membership(a, b),
+            **(_encoder_follows(a, b) if type(a).__name__ == "Tag" else {})}
 
 
 def _membership(a, b):
@@ -458,6 +693,9 @@ def _membership(a, b):
 
 
 def _cmp_eq_hash(inp, io, mo):
+    if "skip" in io:
+        _SKIPPED[0] += 1
+        return None
     if "raise" in io:
         return "constructing / comparing the objects raised"
     if not mo["has_key"]:
@@ -467,10 +705,15 @@ def _cmp_eq_hash(inp, io, mo):
     return None
 
 
+_SKIPPED = [0]
+
+
 def _holds_eq_hash(ctx, inp, io):
     if not isinstance(io, dict) or "eq" not in io:
         return None
     how = f" (a obtained by {inp['how']} from an object hashed before)" if inp.get("how") else ""
+    if inp.get("pa") or inp.get("pb"):
+        how = f" (a via {jkey(inp.get('pa') or {})}, b via {jkey(inp.get('pb') or {})})"
     if io["eq"] and not io.get("hash_eq"):
         return "a == b but hash(a) != hash(b)" + how
     if "in_set" in io:
@@ -480,7 +723,190 @@ def _holds_eq_hash(ctx, inp, io):
             return "a == b but {a, b} has two members" + how
         if not io["eq"] and (io["in_set"] or io["dict_get"] or io["set_size"] != 2):
             return "a != b but b is found in {a}" + how
+    for k, what in (("encodes", "encoder.encode"), ("classifies", "classification_encoding"),
+                    ("multilabel", "multilabel_encoding"), ("prediction", "prediction_encoding")):
+        if k in io and io[k] != io["eq"]:
+            return (f"{what} over the vocabulary [other, a] " + ("does not treat b as a although a == b" if io["eq"]
+                    else "treats b as a although a != b") + how)
     return None
+
+# ------------------------------------------------------------------ follow-up 3: construction paths
+# The same content reached in every legitimate way (HISTORIES.md section 2): constructor with the keywords in
+# another order, `model_validate` of a dict (nested objects as objects / as plain dicts), `model_validate_json`
+# of a document written by hand under the validation aliases, the extras of a term supplied in another order
+# (keyword order, dict order, JSON key order, `model_copy(update=...)` order), optional fields passed
+# explicitly as None instead of omitted, copies of an object that was hashed before.
+VIA_FRESH = ["init", "init_rev", "validate", "validate_plain", "json", "explicit_none", "extras_update"]
+VIA_COPY = ["copy", "deepcopy", "pickle", "model_copy", "model_copy_deep"]
+VIAS = VIA_FRESH + VIA_COPY
+
+
+def _perm(items, k):
+    """the k-th permutation of a short list (k = 0: as given)"""
+    items = list(items)
+    if k == 0 or len(items) < 2:
+        return items
+    perms = list(itertools.islice(itertools.permutations(items), 0, 720))
+    return list(perms[k % len(perms)])
+
+
+def _as_none(explicit_none, field):
+    return explicit_none is True or (isinstance(explicit_none, (list, tuple)) and field in explicit_none)
+
+
+def _plain(tree, k=0, explicit_none=False):
+    """value tree -> plain Python data (dicts under the validation aliases, lists, numbers, strings): what a
+    document handed to model_validate / json.dumps looks like"""
+    from soundevent import data
+    if tree is None or isinstance(tree, bool):
+        return tree
+    if "s" in tree:
+        return tree["s"]
+    if "q" in tree:
+        if tree.get("neg0"):
+            return -0.0
+        f = Fraction(tree["q"])
+        return int(f) if f.denominator == 1 else float(f)
+    if "l" in tree:
+        return [_plain(y, k, explicit_none) for y in tree["l"]]
+    if "t" in tree:
+        return [_plain(y, k, explicit_none) for y in tree["t"]]
+    cls = getattr(data, tree["o"])
+    fields, extras = [], []
+    for n, v in zip(tree["n"], tree["v"]):
+        if n in tree.get("omit", ()):
+            if _as_none(explicit_none, n) and v is None and cls.model_fields[n].default is None:
+                fields.append((cls.model_fields[n].alias or n, None))
+            continue
+        if n.startswith("+"):
+            extras.append((n[1:], _plain(v, k, explicit_none)))
+        else:
+            fields.append((cls.model_fields[n].alias or n, _plain(v, k, explicit_none)))
+    return dict(fields + _perm(extras, k))
+
+
+def _kwargs(tree, k=0, rev=False, explicit_none=False, extras=True):
+    """constructor keywords for the object a tree describes (nested models as real objects)"""
+    from soundevent import data
+    cls = getattr(data, tree["o"])
+    fields, ex = [], []
+    for n, v in zip(tree["n"], tree["v"]):
+        if n in tree.get("omit", ()):
+            if _as_none(explicit_none, n) and v is None and cls.model_fields[n].default is None:
+                fields.append((cls.model_fields[n].alias or n, None))
+            continue
+        if n.startswith("+"):
+            ex.append((n[1:], _via_value(v, k, rev, explicit_none)))
+        else:
+            fields.append((cls.model_fields[n].alias or n, _via_value(v, k, rev, explicit_none)))
+    if rev:
+        fields.reverse()
+    return cls, fields, (_perm(ex, k) if extras else []), ex
+
+
+def _via_value(tree, k, rev, explicit_none):
+    if tree is None or isinstance(tree, bool) or "s" in tree or "q" in tree:
+        return build(tree)
+    if "l" in tree:
+        return [_via_value(y, k, rev, explicit_none) for y in tree["l"]]
+    if "t" in tree:
+        return tuple(_via_value(y, k, rev, explicit_none) for y in tree["t"])
+    cls, fields, ex, _ = _kwargs(tree, k, rev, explicit_none)
+    return cls(**dict(fields + ex))
+
+
+def _fresh_via(tree, via, k=0, none_fields=None):
+    """a new object with the content of `tree`, constructed in the way `via` names; k = order of the extras;
+    none_fields = the omitted optional fields passed explicitly as None (all of them for via = explicit_none)"""
+    import json
+    from soundevent import data
+    cls = getattr(data, tree["o"])
+    if none_fields and via in ("init", "validate_plain", "json"):
+        if via == "init":
+            c, fields, ex, _ = _kwargs(tree, k, explicit_none=list(none_fields))
+            return c(**dict(fields + ex))
+        doc = _plain(tree, k, explicit_none=list(none_fields))
+        return cls.model_validate(doc) if via == "validate_plain" else cls.model_validate_json(json.dumps(doc))
+    if via == "init":
+        c, fields, ex, _ = _kwargs(tree, k)
+        return c(**dict(fields + ex))
+    if via == "init_rev":                    # keywords in reverse order, extras first
+        c, fields, ex, _ = _kwargs(tree, k, rev=True)
+        return c(**dict(ex + fields))
+    if via == "validate":                    # a dict holding real nested objects
+        c, fields, ex, _ = _kwargs(tree, k)
+        return c.model_validate(dict(fields + ex))
+    if via == "validate_plain":              # a dict of plain data (what a parsed document looks like)
+        return cls.model_validate(_plain(tree, k))
+    if via == "json":
+        return cls.model_validate_json(json.dumps(_plain(tree, k)))
+    if via == "explicit_none":               # optional fields that were left out are passed as None
+        c, fields, ex, _ = _kwargs(tree, k, explicit_none=True)
+        return c(**dict(fields + ex))
+    if via == "extras_update":               # the extras arrive later, through model_copy(update=...)
+        c, fields, ex, _ = _kwargs(tree, k, extras=False)
+        _, _, exs, _ = _kwargs(tree, k)
+        o = c(**dict(fields))
+        hash(o) if c.__hash__ is not None else None
+        return o.model_copy(update=dict(exs)) if exs else o
+    raise ValueError(via)
+
+
+def obtain(tree, recipe):
+    """the object described by `tree`, obtained as `recipe` says: {"via": one of VIAS, "k": order of the extras,
+    "from": the fresh path a copy starts from}.  Copies are taken from an object that was hashed before."""
+    import copy
+    import pickle
+    via = recipe.get("via", "init")
+    k = recipe.get("k", 0)
+    if via in VIA_FRESH:
+        return _fresh_via(tree, via, k, recipe.get("none"))
+    src = _fresh_via(tree, recipe.get("from", "init"), k)
+    if type(src).__hash__ is not None:
+        hash(src)
+    if via == "copy":
+        return copy.copy(src)
+    if via == "deepcopy":
+        return copy.deepcopy(src)
+    if via == "pickle":
+        return pickle.loads(pickle.dumps(src))
+    if via == "model_copy":
+        return src.model_copy()
+    if via == "model_copy_deep":
+        return src.model_copy(deep=True)
+    raise ValueError(via)
+
+
+def _extras_items(x):
+    """the extras of every term inside an object, in insertion order (for the evidence / replays only)"""
+    from pydantic import BaseModel
+    out = []
+    if isinstance(x, BaseModel):
+        if x.__pydantic_extra__:
+            out.append(list(x.__pydantic_extra__))
+        for v in x.__dict__.values():
+            out.extend(_extras_items(v))
+    elif isinstance(x, (list, tuple)):
+        for v in x:
+            out.extend(_extras_items(v))
+    return out
+
+
+def _encoder_follows(a, b):
+    """for tags (and terms, wrapped into tags): the encoder of the vocabulary [a] and the three encodings
+    treat b as that vocabulary tag iff ... (judged by the caller against a == b)"""
+    from soundevent import data
+    from soundevent.evaluation import encoding
+    if type(a).__name__ == "Term" and type(b).__name__ == "Term":
+        a, b = data.Tag(term=a, value="v"), data.Tag(term=b, value="v")
+    if type(a).__name__ != "Tag" or type(b).__name__ != "Tag":
+        return {}
+    other = data.Tag(term=data.Term(label="call", name="custom:callType", definition="c"), value="social")
+    enc = encoding.create_tag_encoder([other, a])
+    ml = encoding.multilabel_encoding([b], enc)
+    pr = encoding.prediction_encoding([data.PredictedTag(tag=b, score=0.5)], enc)
+    return {"encodes": enc.encode(b) == 1, "classifies": encoding.classification_encoding([other, b][::-1], enc) == 1,
+            "multilabel": [int(x) for x in ml] == [0, 1], "prediction": [float(x) for x in pr] == [0.0, 0.5]}
 
 
 # ------------------------------------------------------------------ review additions: implementations
@@ -512,6 +938,58 @@ class _TableEncoder:
         raise NotImplementedError
 
 
+ATTR_KINDS = ["instance", "class", "property", "slots", "namedtuple", "dataclass"]
+
+
+def _encoder_flavour(kind, objs, table, n, np_int):
+    """the same user-defined encoder with `num_classes` / `encode` living in another kind of attribute: an instance
+    attribute, a class attribute, a property, __slots__, a namedtuple, a frozen dataclass (HISTORIES.md section 2:
+    attribute objects that are not plain namespaces)"""
+    core = _TableEncoder(objs, table, n, np_int)
+    if kind == "instance":
+        return core
+    if kind == "class":
+        return type("ClassAttrEncoder", (), {"num_classes": n, "encode": staticmethod(core.encode),
+                                             "decode": staticmethod(core.decode)})()
+    if kind == "property":
+        class PropEncoder:
+            @property
+            def num_classes(self):
+                return n
+
+            def encode(self, tag):
+                return core.encode(tag)
+
+            def decode(self, index):
+                return core.decode(index)
+        return PropEncoder()
+    if kind == "slots":
+        class SlotEncoder:
+            __slots__ = ("num_classes", "_core")
+
+            def __init__(self):
+                self.num_classes = n
+                self._core = core
+
+            def encode(self, tag):
+                return self._core.encode(tag)
+
+            def decode(self, index):
+                return self._core.decode(index)
+        return SlotEncoder()
+    if kind == "namedtuple":
+        import collections
+        return collections.namedtuple("TupleEncoder", ["num_classes", "encode", "decode"])(n, core.encode, core.decode)
+    import dataclasses
+
+    @dataclasses.dataclass(frozen=True)
+    class DataEncoder:
+        num_classes: int
+        encode: object
+        decode: object
+    return DataEncoder(n, core.encode, core.decode)
+
+
 def _g_setup(inp):
     objs = [mk_tag(t) for t in GPOOL]
     enc = _TableEncoder(objs, inp["enc"], inp["n"], bool(inp.get("np")))
@@ -520,21 +998,47 @@ def _g_setup(inp):
         from soundevent.evaluation import encoding
         cls = type("ProtoEncoder", (_TableEncoder, encoding.Encoder), {})
         enc = cls(objs, inp["enc"], inp["n"], bool(inp.get("np")))
+    elif inp.get("attr"):
+        enc = _encoder_flavour(inp["attr"], objs, inp["enc"], inp["n"], bool(inp.get("np")))
     return objs, enc
 
 
-def _twice(f, seq, *rest, same=lambda a, b: a == b):
-    """call f(seq, …) on a list, again on the same list, and on a tuple: the answer is a function of the arguments"""
+def _fingerprint(x):
+    """what a Tag / Feature / PredictedTag carries, cheaply (terms are frozen: their identity stands for their content)"""
+    t = getattr(x, "tag", x)
+    return (id(t), id(getattr(t, "term", None)), getattr(t, "value", None), getattr(x, "score", None))
+
+
+ENC_SIG = ["tags", "encoder"]        # = encodingSig of the model; compared with inspect.signature on every run
+_SIG_OK = {}                          # function name -> the code has the documented parameter names (set by _stage_signatures)
+
+
+def _twice(f, seq, *rest, same=lambda a, b: a == b, salt=None, kw=None):
+    """call f(seq, …) on a list, again on the same list, and on a tuple: the answer is a function of the arguments;
+    with `salt` also on another kind of Sequence, with `kw` (the documented parameter names) also by keyword, the
+    keywords in reverse order"""
     snapshot = list(seq)
+    before = [_fingerprint(x) for x in snapshot]
     r1 = f(seq, *rest)
     if len(seq) != len(snapshot) or any(a is not b for a, b in zip(seq, snapshot)):
         raise AssertionError("the function changed the list it was given")
+    if [_fingerprint(x) for x in snapshot] != before:
+        _BY_ID.clear()                      # the shared pool objects are spoilt: later cases build their own
+        raise AssertionError("the function changed one of the objects in the list it was given")
     r2 = f(seq, *rest)
     r3 = f(tuple(snapshot), *rest)
     if not same(r1, r2):
         raise AssertionError("a second call with the same arguments gives another result")
     if not same(r1, r3):
         raise AssertionError("a tuple of the same tags gives another result than the list")
+    if salt is not None and salt % 2:
+        r4 = f(_container(snapshot, 2 + salt % 3), *rest)
+        if not same(r1, r4):
+            raise AssertionError("a %s of the same tags gives another result than the list" % CONTAINERS[2 + salt % 3])
+    if kw is not None and salt is not None and salt % 3 == 0:
+        r5 = f(**dict(reversed(list(zip(kw, (seq,) + rest)))))
+        if not same(r1, r5):
+            raise AssertionError("the call with keywords gives another result than the positional call")
     return r1
 
 
@@ -637,6 +1141,32 @@ def _opt(inp, k, f):
     return None if inp.get(k) is None else f(inp[k])
 
 
+CALL_STYLES = ["kw", "kw_rev", "pos", "mixed", "pos_prefix"]
+
+
+def _find_call(fn, seq, kw, style, sig_ok):
+    """find_tag / find_feature called as `style` says: keywords (in the documented or the reverse order), all
+    positional in the documented order (absent arguments as their documented default None), the first optional
+    argument positional and the rest by keyword, the shortest positional prefix that carries every given argument.
+    The documented names and order are the contract (findTagSig / findFeatureSig of the model, compared with
+    inspect.signature by an obligation): a call that no longer binds (TypeError) or binds otherwise shows up as a
+    disagreement with the model on that very input."""
+    order = ["label", "term", "default"]
+    if style in (None, "kw"):
+        return fn(seq, **kw)
+    if style == "kw_rev":
+        return fn(**dict(reversed([(k, kw[k]) for k in order if k in kw])), **{FIND_FIRST[fn.__name__]: seq})
+    if style == "pos":
+        return fn(seq, *[kw.get(k) for k in order])
+    if style == "mixed":
+        return fn(seq, kw.get("label"), **{k: v for k, v in kw.items() if k != "label"})
+    n = max([i + 1 for i, k in enumerate(order) if k in kw] or [0])
+    return fn(seq, *[kw.get(k) for k in order[:n]])
+
+
+FIND_FIRST = {"find_tag": "tags", "find_feature": "features"}
+
+
 def _impl_find_tag(inp):
     from soundevent import data
     tags = [mk_tag(t) for t in inp["tags"]]
@@ -647,15 +1177,16 @@ def _impl_find_tag(inp):
         kw["term"] = _opt(inp, "term", _fresh_term)
     if "default" in inp:
         kw["default"] = _opt(inp, "default", mk_tag)
-    r = _twice(lambda seq: data.find_tag(seq, **kw), tags, same=lambda a, b: a is b)
+    ok = _SIG_OK.get("find_tag", False)
+    r = _twice(lambda seq: _find_call(data.find_tag, seq, kw, inp.get("call"), ok), tags, same=lambda a, b: a is b,
+               salt=_salt(inp))
     if r is not None and not any(r is t for t in tags) and r is not kw.get("default"):
         raise AssertionError("find_tag returned an object that is neither in the list nor the default")
     return {"val": None if r is None else _full(tag_to_desc(r))}
 
 
 def _fresh_term(d):
-    _CACHE.pop("T" + jkey(d), None)
-    return mk_term(d)
+    return _new_term(d)
 
 
 def _feat_desc(f):
@@ -678,7 +1209,11 @@ def _impl_find_feature(inp):
         kw["term"] = _opt(inp, "term", _fresh_term)
     if "default" in inp:
         kw["default"] = _opt(inp, "default", _mk_feature)
-    r = _twice(lambda seq: data.find_feature(seq, **kw), feats, same=lambda a, b: a is b)
+    ok = _SIG_OK.get("find_feature", False)
+    r = _twice(lambda seq: _find_call(data.find_feature, seq, kw, inp.get("call"), ok), feats, same=lambda a, b: a is b,
+               salt=_salt(inp))
+    if r is not None and not any(r is f for f in feats) and r is not kw.get("default"):
+        raise AssertionError("find_feature returned an object that is neither in the list nor the default")
     return {"val": None if r is None else _feat_desc(r)}
 
 
@@ -840,10 +1375,11 @@ OPS = {
                   nontrivial=lambda i, o: isinstance(o, dict) and "eq" in o),
 }
 for _n in ("classification", "multilabel", "prediction"):
-    OPS[_n].to_model = lambda inp: {k: v for k, v in inp.items() if k != "monitor"}
+    OPS[_n].to_model = lambda inp: {k: v for k, v in inp.items() if k not in ("monitor", "xk", "num")}
+OPS["encoder"].to_model = lambda inp: {k: v for k, v in inp.items() if k != "paths"}
 
 # review additions
-_G = lambda inp: {k: v for k, v in inp.items() if k not in ("np", "proto")}  # noqa: E731
+_G = lambda inp: {k: v for k, v in inp.items() if k not in ("np", "proto", "attr")}  # noqa: E731
 OPS.update({
     # the three encodings behind a user-defined encoder (any table tag -> index in range): determined
     "classification_g": Op("classification_g", _impl_classification_g, to_model=_G,
@@ -858,8 +1394,8 @@ OPS.update({
     "prediction_oor": Op("prediction_oor", _impl_prediction_g, to_model=_G, compare=_cmp_oor, determined=False,
                          model_op="prediction_g", nontrivial=lambda i, o: True),
     "decode_i": Op("decode_i", _impl_decode_i, determined=False, nontrivial=lambda i, o: isinstance(o, list)),
-    "find_tag": Op("find_tag", _impl_find_tag),
-    "find_feature": Op("find_feature", _impl_find_feature),
+    "find_tag": Op("find_tag", _impl_find_tag, to_model=lambda i: {k: v for k, v in i.items() if k != "call"}),
+    "find_feature": Op("find_feature", _impl_find_feature, to_model=lambda i: {k: v for k, v in i.items() if k != "call"}),
     "tag_init": Op("tag_init", _impl_tag_init, to_model=lambda i: {k: v for k, v in i.items() if k != "how"}),
     "feature_init": Op("feature_init", _impl_feature_init,
                        to_model=lambda i: {k: v for k, v in i.items() if k != "how"}),
@@ -867,6 +1403,310 @@ OPS.update({
                      holds=_holds_eq_hash, determined=False,
                      nontrivial=lambda i, o: isinstance(o, dict) and "eq" in o),
 })
+
+
+
+# ------------------------------------------------------------------ follow-up 3: histories (HISTORIES.md section 1)
+# Consecutive calls in one process on shared identities, through harness/history.py: every step is judged by the
+# base operation's model on the content the objects carry at that step (the model is pure; what a cache inside the
+# library may and may not do is `C19_history_cache_sound` / `_stale`, `C19_history_hash_now` / `_stale`).
+H_REUSE = ("assign", "copy_update", "deep_copy_update", "copycopy_assign", "same_list")
+
+
+def _retag(old, d, how):
+    """a Tag object that was used (and hashed) before, made to carry the descriptor d"""
+    import copy
+    if old is None or how == "same_list":
+        t = _fresh_tag(d)
+        hash(t)
+        return t
+    term = _fresh_term(d["term"])
+    if how == "assign":
+        old.term = term
+        old.value = d["value"]
+        t = old
+    elif how == "copy_update":
+        t = old.model_copy(update={"term": term, "value": d["value"]})
+    elif how == "deep_copy_update":
+        t = old.model_copy(update={"term": term, "value": d["value"]}, deep=True)
+    else:                                        # copycopy_assign
+        t = copy.copy(old)
+        t.value = d["value"]
+        t.term = term
+    hash(t)
+    return t
+
+
+def _relist(lst, objs):
+    """the same list object with new content (a caller that keeps one list and refills it)"""
+    lst[:] = objs
+    return lst
+
+
+def _hashed_tags(ds):
+    out = [_fresh_tag(d) for d in ds]
+    len(set(out))                                # the caller de-duplicated them once: every tag was hashed
+    return out
+
+
+def _eh_build(inp):
+    return {"vocab": _hashed_tags(inp["vocab"]), "probes": _hashed_tags(inp["tags"])}
+
+
+def _eh_call(args):
+    from soundevent.evaluation import encoding
+    return {"enc": encoding.create_tag_encoder(args["vocab"])}
+
+
+def _eh_canon(inp, args, res):
+    enc = res["enc"]
+    if "decode" not in res:
+        # first reading, with the live objects of the step; decode hands back the caller's own vocabulary objects
+        # (which later steps may change), so it is read once
+        res["decode"] = [_full(tag_to_desc(enc.decode(i))) for i in range(len(inp["vocab"]))]
+        res["live"] = [enc.encode(p) for p in args["probes"]]
+    out = {"num_classes": enc.num_classes, "encode": [enc.encode(_fresh_tag(d)) for d in inp["tags"]],
+           "decode": res["decode"]}
+    if res["live"] != out["encode"]:
+        out["live_encode"] = res["live"]         # never equal to the model's reply: the step fails with both shown
+    return out
+
+
+def _eh_snapshot(args):
+    return [[tag_to_desc(t) for t in args["vocab"]], [id(t) for t in args["vocab"]],
+            [tag_to_desc(t) for t in args["probes"]]]
+
+
+def _eh_modify(args, inp, how):
+    old_v, old_p = args["vocab"], args["probes"]
+    vocab = [_retag(old_v[i] if i < len(old_v) else None, d, how) for i, d in enumerate(inp["vocab"])]
+    probes = [_retag(old_p[i] if i < len(old_p) else None, d, how) for i, d in enumerate(inp["tags"])]
+    if how in ("assign", "same_list"):
+        vocab, probes = _relist(old_v, vocab), _relist(old_p, probes)
+    return {"vocab": vocab, "probes": probes}
+
+
+def _eh_variants(x, rng):
+    """neighbours of an encoder case: the vocabulary reordered / cut / with one tag replaced by a near twin"""
+    out = []
+    v = x["vocab"]
+    if len(v) > 1:
+        out.append({**x, "vocab": v[::-1]})
+        out.append({**x, "vocab": v[1:]})
+        out.append({**x, "vocab": v[1:] + v[:1]})
+    absent = [t for t in POOL if t not in v]
+    if absent:
+        out.append({**x, "vocab": v + [rng.choice(absent)]})
+        if v:
+            i = rng.randrange(len(v))
+            out.append({**x, "vocab": v[:i] + [rng.choice(absent)] + v[i + 1:]})
+    out.append({**x, "tags": x["tags"][::-1]})
+    return out
+
+
+OPS["encoder_history"] = history.history_op(
+    "encoder_history", Op("encoder", None), _eh_build, _eh_call, _eh_canon, snapshot=_eh_snapshot, modify=_eh_modify)
+
+
+def _items_of(inp, old=None, how=None):
+    """live Tag / PredictedTag objects for a classification / multilabel / prediction input"""
+    from soundevent import data
+    old = old or []
+    if "preds" in inp:
+        out = []
+        for i, p in enumerate(inp["preds"]):
+            s = float(Fraction(p["score"]))
+            o = old[i] if i < len(old) else None
+            if o is None or how in (None, "same_list"):
+                out.append(data.PredictedTag(tag=_retag(None, p["tag"], None), score=s))
+            elif how == "assign":
+                o.tag = _retag(o.tag, p["tag"], how)
+                o.score = s
+                out.append(o)
+            elif how == "copycopy_assign":
+                import copy
+                c = copy.copy(o)
+                c.score = s
+                c.tag = _retag(o.tag, p["tag"], how)
+                out.append(c)
+            else:
+                out.append(o.model_copy(update={"tag": _retag(o.tag, p["tag"], how), "score": s},
+                                        deep=(how == "deep_copy_update")))
+        return out
+    return [_retag(old[i] if i < len(old) else None, d, how) for i, d in enumerate(inp["tags"])]
+
+
+def _item_desc(x):
+    if hasattr(x, "score"):
+        return [tag_to_desc(x.tag), rat(x.score)]
+    return tag_to_desc(x)
+
+
+def _xh_build(inp):
+    from soundevent.evaluation import encoding
+    vocab = _hashed_tags(inp["vocab"])
+    return {"vocab": vocab, "vocab_desc": jkey(inp["vocab"]), "enc": encoding.create_tag_encoder(vocab),
+            "items": _items_of(inp)}
+
+
+def _xh_snapshot(args):
+    return [[_item_desc(x) for x in args["items"]], [id(x) for x in args["items"]],
+            [tag_to_desc(t) for t in args["vocab"]], args["enc"].num_classes]
+
+
+def _xh_modify(args, inp, how):
+    from soundevent.evaluation import encoding
+    items = _items_of(inp, args["items"], how)
+    if how in ("assign", "same_list"):
+        items = _relist(args["items"], items)
+    if args["vocab_desc"] == jkey(inp["vocab"]):
+        return {**args, "items": items}              # the very same encoder object is used again
+    vocab = _hashed_tags(inp["vocab"])
+    return {"vocab": vocab, "vocab_desc": jkey(inp["vocab"]), "enc": encoding.create_tag_encoder(vocab), "items": items}
+
+
+def _xh_poison(res):
+    """the caller writes into the array it got back"""
+    import numpy as np
+    if not isinstance(res, np.ndarray) or res.size == 0:
+        return False
+    res[...] = 7 if res.dtype.kind in "iu" else 0.75
+    return True
+
+
+def _xh_variants(x, rng):
+    out = []
+    for v in _eh_variants({"vocab": x["vocab"], "tags": []}, rng):
+        out.append({**x, "vocab": v["vocab"]})
+    key = "preds" if "preds" in x else "tags"
+    seq = x[key]
+    if seq:
+        out.append({**x, key: seq[::-1]})
+        out.append({**x, key: seq[1:]})
+        i = rng.randrange(len(seq))
+        twin = rng.choice(POOL)
+        out.append({**x, key: seq[:i] + [pred_desc(twin, rng.choice(SCORES)) if key == "preds" else twin] + seq[i + 1:]})
+    out.append({**x, key: seq + ([pred_desc(rng.choice(POOL), rng.choice(SCORES))] if key == "preds" else [rng.choice(POOL)])})
+    return out
+
+
+def _xh_op(name, fn_name, canon):
+    def call(args):
+        from soundevent.evaluation import encoding
+        return getattr(encoding, fn_name)(args["items"], args["enc"])
+    return history.history_op(name + "_history", OPS[name], _xh_build, call, lambda inp, args, res: canon(res),
+                              snapshot=_xh_snapshot, modify=_xh_modify, poison=_xh_poison)
+
+
+OPS["classification_history"] = _xh_op("classification", "classification_encoding", lambda r: None if r is None else int(r))
+OPS["multilabel_history"] = _xh_op("multilabel", "multilabel_encoding", lambda r: [int(x) for x in r])
+OPS["prediction_history"] = _xh_op("prediction", "prediction_encoding", lambda r: [rat(float(x)) for x in r])
+
+
+def _fh_kw(inp, mk_default):
+    kw = {}
+    if "label" in inp:
+        kw["label"] = inp["label"]
+    if "term" in inp:
+        kw["term"] = _opt(inp, "term", _fresh_term)
+    if "default" in inp:
+        kw["default"] = _opt(inp, "default", mk_default)
+    return kw
+
+
+def _fh_op(name, key, mk, fn_name, desc):
+    def build(inp):
+        return {"seq": [mk(d) for d in inp[key]], "kw": _fh_kw(inp, mk)}
+
+    def call(args):
+        from soundevent import data
+        return getattr(data, fn_name)(args["seq"], **args["kw"])
+
+    def canon(inp, args, res):
+        return {"val": None if res is None else desc(res)}
+
+    def snapshot(args):
+        return [[desc(x) for x in args["seq"]], [id(x) for x in args["seq"]], sorted(args["kw"])]
+
+    def modify(args, inp, how):
+        # the caller keeps one list and refills it (with new objects: a returned element is the caller's own object,
+        # and earlier results are read again at the end)
+        return {"seq": _relist(args["seq"], [mk(d) for d in inp[key]]), "kw": _fh_kw(inp, mk)}
+
+    return history.history_op(name + "_history", OPS[name], build, call, canon, snapshot=snapshot, modify=modify)
+
+
+OPS["find_tag_history"] = _fh_op("find_tag", "tags", _fresh_tag, "find_tag",
+                                 lambda t: _full(tag_to_desc(t)))
+OPS["find_feature_history"] = _fh_op("find_feature", "features", _mk_feature, "find_feature", _feat_desc)
+
+
+def _fh_variants(key, pool):
+    def variants(x, rng):
+        out = []
+        for k in ("label", "term", "default"):
+            if k in x:
+                out.append({a: b for a, b in x.items() if a != k})
+        if "default" not in x:
+            out.append({**x, "default": rng.choice(pool)})
+        if "label" not in x:
+            out.append({**x, "label": rng.choice(["species", "Species", "colour"])})
+        if "term" not in x:
+            out.append({**x, "term": rng.choice([T0, T1, T2, T4])})
+        seq = x[key]
+        if seq:
+            out.append({**x, key: seq[::-1]})
+            out.append({**x, key: seq[1:]})
+        out.append({**x, key: seq + [rng.choice(pool)]})
+        return out
+    return variants
+
+
+_H_BASE = {"encoder_history": Op("encoder", None), "classification_history": OPS["classification"],
+           "multilabel_history": OPS["multilabel"], "prediction_history": OPS["prediction"],
+           "find_tag_history": OPS["find_tag"], "find_feature_history": OPS["find_feature"]}
+
+
+def _stage_histories(ctx):
+    rng = ctx.rng
+
+    def run(opname, base, n, variants, hows, poison=False):
+        hs = history.sequences(rng, base, n, variants=variants, reuse_hows=hows, poison=poison)
+        for h in hs:
+            for st in h["seq"]:
+                ctx.tally(f"history {opname}:" + (st.get("reuse") or "fresh") + ("+poison" if st.get("poison") else ""))
+        history.prefetch(ctx, _H_BASE[opname], hs)
+        ctx.run_cases(OPS[opname], hs)
+        ctx.__dict__.pop("_history_model_cache", None)
+
+    probes = POOL[:8]
+    base = [{"vocab": _random_vocab(rng, POOL, 5), "tags": probes} for _ in range(ctx.budget(60, 600))]
+    base += [{"vocab": [CORE[0], CORE[3]], "tags": probes}, {"vocab": [CORE[1]], "tags": probes}]
+    run("encoder_history", base, ctx.budget(90, 900), _eh_variants, H_REUSE)
+    tcases = [_random_case(rng, "tags") for _ in range(ctx.budget(60, 600))]
+    pcases = [_random_case(rng, "preds") for _ in range(ctx.budget(60, 600))]
+    run("classification_history", tcases, ctx.budget(70, 700), _xh_variants, H_REUSE)
+    run("multilabel_history", tcases, ctx.budget(90, 900), _xh_variants, H_REUSE, poison=True)
+    run("prediction_history", pcases, ctx.budget(90, 900), _xh_variants, H_REUSE, poison=True)
+    fcases = []
+    for _ in range(ctx.budget(50, 500)):
+        c = {"tags": [rng.choice(POOL[:8]) for _ in range(rng.choice([0, 1, 2, 3, 5]))]}
+        for k, vals in (("term", [T0, T1, T2, T4, None]), ("label", ["species", "Species", "colour", "zz", None]),
+                        ("default", POOL[:6] + [None])):
+            if rng.random() < 0.5:
+                c[k] = rng.choice(vals)
+        fcases.append(c)
+    run("find_tag_history", fcases, ctx.budget(70, 700), _fh_variants("tags", POOL[:8]), ("same_list",))
+    ffeat = [{"term": t, "value": rat(v)} for t in (T0, T1, T2, T5) for v in (0.0, 1.0)]
+    gcases = []
+    for _ in range(ctx.budget(40, 400)):
+        c = {"features": [rng.choice(ffeat) for _ in range(rng.choice([0, 1, 2, 3]))]}
+        for k, vals in (("term", [T0, T1, T2, None]), ("label", ["species", "Species", "colour", None]),
+                        ("default", ffeat + [None])):
+            if rng.random() < 0.5:
+                c[k] = rng.choice(vals)
+        gcases.append(c)
+    run("find_feature_history", gcases, ctx.budget(50, 500), _fh_variants("features", ffeat), ("same_list",))
 
 
 # ------------------------------------------------------------------ generators
@@ -1122,9 +1962,9 @@ def _eq_hash_cases(ctx):
         base = pool[0][1]
         for label, tree in pool:
             for how in HOWS:
-                if how == "setattr" and frozen:
+                if how in MUTATING_HOWS + ("inplace_list",) and frozen:
                     continue
-                derived = how in ("setattr", "model_copy_update")
+                derived = how in DERIVED_HOWS
                 if derived and (label in ("base", "copy") or label.endswith("'") or label.startswith(("+", "<"))):
                     continue
                 if not derived and label.endswith("'"):
@@ -1137,7 +1977,186 @@ def _eq_hash_cases(ctx):
     # cross-class pairs: same field values, different classes
     for c1, c2 in itertools.permutations(["Tag", "Feature", "SoundEvent", "Note"], 2):
         cases.append({"a": pools[c1][0][1], "b": pools[c2][0][1]})
+    # follow-up 3: one uuid shared *across* kinds (a prediction carrying the uuid of an annotation, a note that of a
+    # sound event): the hashes may collide, the objects must stay unequal and apart in sets and dicts
+    shared = str(_uuid.UUID(int=777))
+    uu = ["Note", "SoundEvent", "SoundEventAnnotation", "SoundEventPrediction", "ClipPrediction"]
+    twins = {}
+    for c in uu:
+        kw = B[c][0]()
+        kw["uuid"] = shared
+        twins[c] = walk(_construct(c, kw))
+    for c1, c2 in itertools.permutations(uu, 2):
+        cases.append({"a": twins[c1], "b": twins[c2]})
+    ctx.tally("eq_hash one uuid across kinds", len(uu) * (len(uu) - 1))
     return cases
+
+
+
+# ---- follow-up 3: the same content through every construction path; neighbours through random paths ----
+XTRA3 = {"+note": "n", "+other": "o", "+status": "s"}
+XTRA2 = {"+note": "n", "+other": "o"}
+
+
+def _path_contents():
+    """class -> [(label, tree, has_extras)]: the base object, and one whose term(s) carry >= 2 extra attributes"""
+    from soundevent import data
+    B = _bases()
+    tx = lambda X: _construct("Term", {**B["Term"][0](), **X})  # noqa: E731
+    tag = lambda X, v="dog": data.Tag(term=tx(X), value=v)  # noqa: E731
+    feat = lambda X, v=1.0: data.Feature(term=tx(X), value=v)  # noqa: E731
+    ptag = lambda X: data.PredictedTag(tag=tag(X), score=0.5)  # noqa: E731
+    out = {c: [("base", walk(_construct(c, B[c][0]())), False)] for c in B}
+    out["Term"] += [("x2", walk(tx(XTRA2)), True), ("x3", walk(tx(XTRA3)), True)]
+    out["Tag"].append(("x3", walk(tag(XTRA3)), True))
+    out["Feature"].append(("x3", walk(feat(XTRA3)), True))
+    for c, f, v in (("SoundEvent", "features", lambda: [feat(XTRA3)]),
+                    ("SoundEventAnnotation", "tags", lambda: [tag(XTRA3), tag(XTRA2, "cat")]),
+                    ("SoundEventPrediction", "tags", lambda: [ptag(XTRA3)]),
+                    ("ClipPrediction", "tags", lambda: [ptag(XTRA2)])):
+        kw = B[c][0]()
+        kw[f] = v()
+        out[c].append(("x3", walk(_construct(c, kw)), True))
+    return out
+
+
+def _recipes(has_extras, wide):
+    ks = ([0, 1, 2, 3, 4, 5] if wide else [0, 3, 4]) if has_extras else [0]
+    rs = [{"via": v, "k": k} for v in VIA_FRESH for k in ks]
+    rs += [{"via": v, "k": ks[-1], "from": f} for v, f in zip(VIA_COPY, ["init", "json", "validate_plain", "init_rev", "json"])]
+    return rs
+
+
+def _path_cases(ctx):
+    rng = ctx.rng
+    cases = []
+    contents = _path_contents()
+    for c, items in contents.items():
+        small = c in ("Term", "Tag", "Feature")
+        for label, tree, has_x in items:
+            rs = _recipes(has_x, wide=(c == "Term" and label == "x3"))
+            if small:
+                pairs = [(ra, rb) for ra in rs for rb in rs]
+            else:
+                pairs = [(r, rs[0]) for r in rs] + [(rs[0], r) for r in rs] + [tuple(rng.sample(rs, 2)) for _ in range(30)]
+            for ra, rb in pairs:
+                cases.append({"a": tree, "b": tree, "pa": ra, "pb": rb})
+            ctx.tally(f"eq_hash paths {c}.{label}", len(pairs))
+    # one optional field at a time passed explicitly as None (C19-5), through three ways of construction
+    for c, items in contents.items():
+        tree = items[0][1]
+        for f in tree.get("omit", []):
+            for via in ("init", "validate_plain", "json"):
+                cases.append({"a": tree, "b": tree, "pa": {"via": via, "none": [f]}, "pb": {"via": "init"}})
+                cases.append({"a": tree, "b": tree, "pa": {"via": "init"}, "pb": {"via": via, "none": [f]}})
+                ctx.tally("eq_hash explicit None " + c)
+    # neighbours (one-field variants of the pools) through random paths: == must stay false / true as modelled
+    B = _bases()
+    for c in B:
+        pool = _class_pool(c, *B[c])
+        n = ctx.budget(260, 2600) if c == "Term" else ctx.budget(90, 900)
+        for _ in range(n):
+            (la, a), (lb, b) = rng.choice(pool), rng.choice(pool)
+            ra, rb = ({"via": rng.choice(VIAS), "k": rng.randrange(6), "from": rng.choice(VIA_FRESH[:5])} for _ in range(2))
+            cases.append({"a": a, "b": b, "pa": ra, "pb": rb})
+        ctx.tally("eq_hash pool pairs through random paths " + c, n)
+    return cases
+
+
+# ---- follow-up 3: the extras of a term as the insertion-ordered dict they are (model: RawTerm) -------
+XVIAS = ["init", "validate", "json", "update"]
+
+
+def _term_with_items(desc, items, via):
+    import json
+    from soundevent import data
+    kw = {}
+    for f, v in desc.items():
+        if f != "extra":
+            kw[data.Term.model_fields[f].alias or f] = v
+    if via == "init":
+        return data.Term(**kw, **dict(items))
+    if via == "validate":
+        return data.Term.model_validate({**kw, **dict(items)})
+    if via == "json":
+        return data.Term.model_validate_json(json.dumps({**kw, **dict(items)}))
+    t = data.Term(**kw)
+    hash(t)
+    return t.model_copy(update=dict(items))
+
+
+def _impl_extras_eq(inp):
+    from soundevent import data
+    objs = []
+    for side in ("a", "b"):
+        d = inp[side]
+        t = _term_with_items(d["term"], [tuple(x) for x in d["items"]], d.get("via", "init"))
+        if [list(x) for x in (t.__pydantic_extra__ or {}).items()] != d["items"]:
+            return {"skip": "the extras are not kept in the order they were given"}
+        if tag_to_desc(data.Tag(term=t, value="v"))["term"] != d["term"]:
+            raise AssertionError("descriptor does not describe the constructed term")
+        objs.append(t)
+    a, b = objs
+    r = (a == b)
+    if (b == a) != r:
+        raise AssertionError("__eq__ is not symmetric")
+    ta, tb = data.Tag(term=a, value="v"), data.Tag(term=b, value="v")
+    fa, fb = data.Feature(term=a, value=2.5), data.Feature(term=b, value=2.5)
+    return {"eq": bool(r), "hash_eq": hash(a) == hash(b), **_membership(a, b), **_encoder_follows(a, b),
+            "tag": {"eq": ta == tb, "hash_eq": hash(ta) == hash(tb), **_membership(ta, tb)},
+            "feature": {"eq": fa == fb, "hash_eq": hash(fa) == hash(fb), **_membership(fa, fb)}}
+
+
+def _cmp_extras_eq(inp, io, mo):
+    if "skip" in io:
+        _SKIPPED[0] += 1
+        return None
+    if "raise" in io:
+        return "constructing / comparing the terms raised"
+    if not (mo["wf"] and mo["canon_is_sent"]):
+        return "harness: the descriptor sent is not the canonical form of the term as constructed"
+    if not (mo["py_eq"] == mo["canon_eq"] == mo["sent_eq"]):
+        return "model: dict equality of the extras differs from equality of the key-sorted items"
+    if io["eq"] != mo["py_eq"]:
+        return "Term.__eq__ differs from field equality with the extras compared as a dict (order-insensitive)"
+    if io["tag"]["eq"] != mo["py_eq"] or io["feature"]["eq"] != mo["py_eq"]:
+        return "== of the tags / features built on the two terms differs from == of the terms"
+    return None
+
+
+def _holds_extras_eq(ctx, inp, io):
+    if not isinstance(io, dict) or "eq" not in io:
+        return None
+    for what, d in (("Term", io), ("Tag on the term", io["tag"]), ("Feature on the term", io["feature"])):
+        msg = _holds_eq_hash(ctx, {}, d)
+        if msg:
+            return f"{what}: {msg} (extras given as {jkey(inp['a']['items'])} via {inp['a'].get('via')} / "\
+                   f"{jkey(inp['b']['items'])} via {inp['b'].get('via')})"
+    return None
+
+
+def _extras_cases(ctx):
+    base = {f: v for f, v in _full({"term": T0, "value": ""})["term"].items() if v is not None and f != "extra"}
+    vals = {"note": ["n", "m"], "other": ["o"], "status": ["s"]}
+    lists = []
+    for r in range(4):
+        for keys in itertools.permutations(sorted(vals), r):
+            for nv in (vals["note"] if "note" in keys else [None]):
+                lists.append([[k, (nv if k == "note" else vals[k][0])] for k in keys])
+    lists += [[["note", "o"], ["other", "n"]], [["other", "n"], ["note", "o"]]]      # the values swapped
+    cases = []
+    for i, a in enumerate(lists):
+        for j, b in enumerate(lists):
+            mk = lambda items, via: {"term": {**base, "extra": sorted(items)}, "items": items, "via": via}  # noqa: E731
+            cases.append({"a": mk(a, XVIAS[(i + j) % 4]), "b": mk(b, XVIAS[(i // 2 + 3 * j) % 4])})
+    ctx.tally("extras_eq item lists", len(lists))
+    return cases
+
+
+# two terms whose extras were supplied in given orders / ways, against the RawTerm model of Encoding.lean
+OPS["extras_eq"] = Op("extras_eq", _impl_extras_eq, compare=_cmp_extras_eq, holds=_holds_extras_eq, determined=False,
+                      to_model=lambda i: {k: {"term": i[k]["term"], "items": i[k]["items"]} for k in ("a", "b")},
+                      nontrivial=lambda i, o: isinstance(o, dict) and "eq" in o)
 
 
 # ------------------------------------------------------------------ tie 1: tables
@@ -1198,6 +2217,23 @@ def _tables(ctx):
                 eq_reads.append(f)
             if h:
                 hash_reads.append(f)
+        # follow-up 3: the same content through another construction path / with the extras in another order is a
+        # pseudo-field too: a hash that tells such twins apart reads something `==` does not
+        try:
+            twins = [t for _l, t, _x in _path_contents().get(c, [])]
+        except Exception:  # noqa: BLE001
+            twins = []
+        for tree in twins:
+            ref = obtain(tree, {"via": "init"})
+            for r in _recipes(True, wide=False):
+                tw = obtain(tree, r)
+                if _strip_omit(walk(tw)) != _strip_omit(tree):
+                    continue
+                tagname = f"<path:{r['via']}/{r['k']}>"
+                if not (ref == tw) and tagname not in eq_reads:
+                    eq_reads.append(tagname)
+                if hash(ref) != hash(tw) and tagname not in hash_reads:
+                    hash_reads.append(tagname)
         row = f'(SE.Encoding.HashRow.mk "{c}" {_lean_strs(eq_reads)} {_lean_strs(hash_reads)})'
         src = (f"example : {row}.wellFormed = true := by decide\n"
                f"example (a b : SE.Encoding.Record) (h : SE.Encoding.agreeOn {_lean_strs(eq_reads)} a b) :\n"
@@ -1212,6 +2248,134 @@ def _tables(ctx):
 def _hand_written_hash(c):
     f = c.__dict__.get("__hash__")
     return f is not None and getattr(f, "__module__", "").startswith("soundevent")
+
+
+
+
+# ------------------------------------------------------------------ follow-up 3: sizes, extras in vocabularies
+def _big_pool(n):
+    """n distinct tags: a few terms (some sharing the name, some the label) x many values"""
+    terms = [T0, T1, T2, T4, T5]
+    return [{"term": terms[i % len(terms)], "value": "v%d" % (i // len(terms))} for i in range(n)]
+
+
+def _stage_sizes(ctx):
+    """sizes at which an implementation could switch strategy (HISTORIES.md section 4): vocabularies and tag lists of
+    15..17, 255..257, 1023..1025 and more elements, repeats beyond those lengths"""
+    rng = ctx.rng
+    big = _big_pool(1400)
+    sizes = [15, 16, 17, 255, 256, 257, 1023, 1024, 1025] + ([1300] if ctx.thorough() else [])
+    enc_cases, tag_cases, pred_cases = [], [], []
+    for n in sizes:
+        vocab = rng.sample(big[:n + 40], n)
+        probes = [vocab[0], vocab[-1], vocab[n // 2], big[n + 41], {"term": T3, "value": "v0"}] + rng.sample(big, 3)
+        enc_cases.append({"vocab": vocab, "tags": probes})
+        # a list as long as the threshold with repeats and out-of-vocabulary members; the first hit late in the list
+        for m in (n, 17):
+            oov = [t for t in big[n + 40:n + 60]]
+            tags = [rng.choice(oov) for _ in range(m - 2)] + [vocab[rng.randrange(n)], vocab[rng.randrange(n)]]
+            tag_cases.append({"vocab": vocab, "tags": tags})
+            mixed = [rng.choice(vocab + oov) for _ in range(m)]
+            tag_cases.append({"vocab": vocab[:17], "tags": mixed + mixed[:3]})
+            pred_cases.append({"vocab": vocab[:max(1, n // 4)], "preds": [pred_desc(t, rng.choice(SCORES)) for t in mixed]})
+    ctx.run_cases(OPS["encoder"], enc_cases)
+    for name in ("classification", "multilabel"):
+        ctx.run_cases(OPS[name], tag_cases)
+    ctx.run_cases(OPS["prediction"], pred_cases)
+    ctx.tally("size cases (vocabulary / list lengths " + ",".join(map(str, sizes)) + ")", len(enc_cases) + 2 * len(tag_cases)
+              + len(pred_cases))
+    # find_tag / find_feature over long lists: the match at the very end, beyond every threshold
+    fc = []
+    for n in (17, 257, 1025):
+        seq = [big[i] for i in range(5, n + 4)] + [{"term": T3, "value": "last"}]
+        fc.append({"tags": seq, "term": T3, "call": "pos"})
+        fc.append({"tags": seq, "label": "colour", "default": CORE[0], "call": "kw_rev"})
+        fc.append({"tags": seq + seq[:2], "term": T6, "default": CORE[3]})
+    ctx.run_cases(OPS["find_tag"], fc)
+
+
+T7 = term_desc("species", "dwc:species", extra={"note": "n", "other": "o"})
+T8 = term_desc("species", "dwc:species", extra={"note": "o", "other": "n"})       # the same keys, the values swapped
+T9 = term_desc("species", "dwc:species", extra={"note": "n", "other": "o", "status": "s"})
+XPOOL = [{"term": T0, "value": "dog"}, {"term": T4, "value": "dog"}, {"term": T7, "value": "dog"},
+         {"term": T8, "value": "dog"}, {"term": T9, "value": "dog"}, {"term": T7, "value": "cat"}]
+
+
+def _stage_extras(ctx):
+    """vocabularies over tags whose terms carry 0..3 extra attributes (the same keys with other values, a subset of
+    the keys): every probe also through every construction path and every order of its extras"""
+    rng = ctx.rng
+    ctx.run_cases(OPS["encoder"], ({"vocab": v, "tags": XPOOL, "paths": "all"} for v in _vocabs(XPOOL, 3)))
+    vocs = list(_vocabs(XPOOL, 2)) + [rng.sample(XPOOL, 4) for _ in range(10)] + [XPOOL]
+    lists = list(_lists(XPOOL, 2))
+    cases = [{"vocab": v, "tags": t, "xk": 1 + (i % 5)} for i, (v, t) in enumerate((v, t) for v in vocs for t in lists)]
+    for name in ("classification", "multilabel"):
+        ctx.run_cases(OPS[name], cases)
+    ctx.exhaustive["extras in vocabularies"] = (f"encoder: all ordered vocabularies of <= 3 of {len(XPOOL)} tags over terms with "
+                                                "0..3 extras, every probe through 9 construction recipes; classification / "
+                                                f"multilabel: {len(vocs)} vocabularies x {len(lists)} lists, the extras of the "
+                                                "probes in each of the 5 non-sorted orders")
+
+
+# ------------------------------------------------------------------ follow-up 3: documented signatures (tie 1)
+def _stage_signatures(ctx):
+    """the parameter names and order of the public functions, re-extracted with inspect.signature, against the
+    tables of the model (findTagSig, findFeatureSig, encodingSig); the call styles the check uses, bound by the
+    model's `bindCall` (C19_call_binding, C19_find_call_styles)"""
+    import inspect
+    from soundevent import data
+    from soundevent.evaluation import encoding
+    table = [("find_tag", data, "find_tag", "findTagSig"), ("find_feature", data, "find_feature", "findFeatureSig"),
+             ("classification_encoding", encoding, "encoding", "encodingSig"),
+             ("multilabel_encoding", encoding, "encoding", "encodingSig"),
+             ("prediction_encoding", encoding, "encoding", "encodingSig")]
+    for fname, mod, sig, lean in table:
+        fn = getattr(mod, fname, None)
+        try:
+            ps = list(inspect.signature(fn).parameters.values())
+        except Exception as e:  # noqa: BLE001
+            ctx.pre_failed.append("signature_" + fname)
+            ctx.fail("obligation", "signature_" + fname, detail=f"no signature: {e!r}")
+            continue
+        # keyword-only parameters added behind the documented ones do not change how the documented calls bind
+        names = [q.name for q in ps if q.kind in (q.POSITIONAL_ONLY, q.POSITIONAL_OR_KEYWORD)]
+        posonly = [q.name for q in ps if q.kind == q.POSITIONAL_ONLY]
+        defaults = [q.name for q in ps[1:] if q.kind == q.POSITIONAL_OR_KEYWORD and q.default is not None
+                    and q.default is not q.empty]
+        r = ctx.model("bind_call", {"sig": sig, "params": names, "npos": 1, "kw": []})
+        _SIG_OK[fname] = bool(r["documented"]) and not posonly and not defaults
+        ctx.obligation("signature_" + fname,
+                       f"example : SE.Encoding.{lean} = {_lean_strs(names)} := by decide\n"
+                       f"example : {_lean_strs(posonly + defaults)} = ([] : List String) := by decide",
+                       {"function": fname, "parameters": names, "positional_only": posonly,
+                        "defaults_other_than_None": defaults})
+    fn = getattr(encoding, "create_tag_encoder", None)
+    try:
+        _SIG_OK["create_tag_encoder"] = [q.name for q in inspect.signature(fn).parameters.values()
+                                         if q.default is q.empty] == ["tags"]
+    except Exception:  # noqa: BLE001
+        _SIG_OK["create_tag_encoder"] = False
+    # the call styles of _find_call, bound by the model: every style binds the given arguments to their own names
+    for sig, params in (("find_tag", ["tags", "label", "term", "default"]),):
+        for given in itertools.chain.from_iterable(itertools.combinations(params[1:], r) for r in range(4)):
+            for style in CALL_STYLES:
+                order = params[1:]
+                if style == "kw":
+                    npos, kws = 1, [k for k in order if k in given]
+                elif style == "kw_rev":
+                    npos, kws = 0, [k for k in reversed(order) if k in given] + [params[0]]
+                elif style == "pos":
+                    npos, kws = 4, []
+                elif style == "mixed":
+                    npos, kws = 2, [k for k in order if k in given and k != "label"]
+                else:
+                    npos, kws = 1 + max([i + 1 for i, k in enumerate(order) if k in given] or [0]), []
+                r = ctx.model("bind_call", {"sig": sig, "params": params, "npos": npos, "kw": kws})
+                bound = dict((k, i) for k, i in (r["binding"] or []))
+                want = {p: (i if i < npos else npos + kws.index(p)) for i, p in enumerate(params) if i < npos or p in kws}
+                ctx.contract("call-style-binding", r["binding"] is not None and bound == want and
+                             all(g in bound for g in given) and "tags" in bound,
+                             {"style": style, "given": list(given)}, r["binding"])
 
 
 # ------------------------------------------------------------------ run
@@ -1232,12 +2396,17 @@ def run(ctx):
     ctx.stage("corpus", ctx.run_corpus, OPS)
     ctx.stage("tables", _tables, ctx)
     ctx.stage("hash-trace", _stage_hash_trace, ctx)
+    ctx.stage("signatures", _stage_signatures, ctx)
     ctx.stage("discharge", ctx.discharge, ["SoundeventModel.Encoding", "Proofs.C19"])
     ctx.stage("encoder", _stage_encoder, ctx)
     ctx.stage("encodings", _stage_encodings, ctx)
     ctx.stage("prediction", _stage_prediction, ctx)
     ctx.stage("tag-equality", _stage_tag_eq, ctx)
     ctx.stage("eq-hash", _stage_eq_hash, ctx)
+    ctx.stage("construction-paths", _stage_paths, ctx)
+    ctx.stage("histories", _stage_histories, ctx)
+    ctx.stage("sizes", _stage_sizes, ctx)
+    ctx.stage("extras", _stage_extras, ctx)
     ctx.stage("generic-encoders", _stage_generic, ctx)
     ctx.stage("find", _stage_find, ctx)
     ctx.stage("init", _stage_init, ctx)
@@ -1286,10 +2455,31 @@ def _stage_prediction(ctx):
         ctx.note(f"{_OPEN_DIFF[0]} inputs on which one vocabulary tag is predicted with two different scores gave a vector "
                  "other than the model's last-write-wins one (left open by the property; not a failure)")
     # every score of the pool alone (float32 store of each value)
-    ctx.run_cases(OPS["prediction"], ({"vocab": [CORE[0], CORE[1]], "preds": [pred_desc(CORE[1], s)]} for s in SCORES))
+    ctx.run_cases(OPS["prediction"], ({"vocab": [CORE[0], CORE[1]], "preds": [pred_desc(CORE[1], s)]}
+                                      for s in SCORES + SCORES_EDGE))
     import numpy as np
-    for s in SCORES:
+    for s in SCORES + SCORES_EDGE:
         ctx.contract("float32-store", float(np.float32(s)) == f32(s), {"score": rat(s)}, rat(float(np.float32(s))))
+    # follow-up 3: the store at its rounding boundaries (ties of binary32, denormals), two predictions of one tag whose
+    # scores differ in binary64 but are stored alike (the entry is then determined), the score handed over as an int /
+    # bool / numpy scalar where that type holds it exactly
+    edge = []
+    for s in SCORES_EDGE:
+        for t in (CORE[0], CORE[1]):
+            edge.append({"vocab": [CORE[1], CORE[0]], "preds": [pred_desc(t, s), pred_desc(CORE[3], 1.0)]})
+    for a, b in [(0.1, f32(0.1)), (_T1, 1.0), (_T2, 0.5), (2.0 ** -150, 0.0), (math.nextafter(_T1, 0), 1 - 2.0 ** -24)]:
+        edge.append({"vocab": [CORE[0]], "preds": [pred_desc(CORE[0], a), pred_desc(CORE[0], b)]})
+        edge.append({"vocab": [CORE[0]], "preds": [pred_desc(CORE[0], b), pred_desc(CORE[1], 0.7), pred_desc(CORE[0], a)]})
+    ctx.run_cases(OPS["prediction"], edge)
+    nums = []
+    for i in range(ctx.budget(400, 4000)):
+        c = _random_case(rng, "preds")
+        sc = rng.choice([0.0, 1.0, 0.25, 0.5, 0.75])
+        c["preds"] = [pred_desc(p["tag"], sc if rng.random() < 0.7 else float(Fraction(p["score"]))) for p in c["preds"]]
+        nums.append({**c, "num": NUM_STYLES[i % len(NUM_STYLES)]})
+    ctx.run_cases(OPS["prediction"], nums)
+    for st in NUM_STYLES:
+        ctx.tally("prediction score given as " + st, sum(1 for c in nums if c["num"] == st))
 
 
 def _stage_tag_eq(ctx):
@@ -1298,6 +2488,21 @@ def _stage_tag_eq(ctx):
     tagsp = [{"term": t, "value": "dog"} for t in terms] + POOL
     ctx.run_cases(OPS["tag_eq"], ({"a": a, "b": b} for a in tagsp for b in tagsp))
     ctx.exhaustive["tag_eq"] = f"all ordered pairs of {len(tagsp)} tags (every Term field perturbed one at a time, extras)"
+
+
+def _stage_paths(ctx):
+    """follow-up 3: equal content through every construction path, extras in every order"""
+    ctx.run_cases(OPS["eq_hash"], _path_cases(ctx))
+    ctx.run_cases(OPS["extras_eq"], _extras_cases(ctx))
+    if _SKIPPED[0]:
+        ctx.note(f"{_SKIPPED[0]} construction-path cases skipped: the path did not reproduce the content (validation "
+                 "changed it); outside this property")
+    ctx.exhaustive["eq_hash paths"] = ("per hashable class, the base object and one whose terms carry 2-3 extra attributes: "
+                                       "all ordered pairs of construction recipes (" + ", ".join(VIAS) + "; every order of "
+                                       "the extras) for Term / Tag / Feature, every recipe against the plain constructor "
+                                       "for the uuid-hashed classes; every omitted optional field passed as None on its own")
+    ctx.exhaustive["extras_eq"] = ("all ordered pairs of 29 item lists (every ordering of every subset of 3 extra keys, two "
+                                   "values of one key, swapped values) x 4 ways of supplying them, against RawTerm.pyEq")
 
 
 def _stage_eq_hash(ctx):
@@ -1335,8 +2540,8 @@ def _stage_generic(ctx):
         tbl = [rng.choice([None] + list(range(K))) for _ in range(4)]
         tags = [rng.randrange(4) for _ in range(rng.choice([0, 1, 2, 4, 7]))]
         extra.append({"n": K, "enc": tbl, "tags": tags})
-    flags = [{}, {"np": True}, {"proto": True}]
-    allc = [{**c, **flags[i % 3]} for i, c in enumerate(cases + extra)]
+    flags = [{}, {"np": True}, {"proto": True}] + [{"attr": k} for k in ATTR_KINDS] + [{"attr": "slots", "np": True}]
+    allc = [{**c, **flags[i % len(flags)]} for i, c in enumerate(cases + extra)]
     for name in ("classification_g", "multilabel_g"):
         ctx.run_cases(OPS[name], allc)
     ctx.exhaustive["generic encoders"] = (f"every table of {P} tags into {{skip, 0..K-1}} for K <= 2 x {len(lists)} tag lists "
@@ -1355,7 +2560,7 @@ def _stage_generic(ctx):
         tbl = [rng.choice([None] + list(range(K))) for _ in range(4)]
         preds = [{"i": rng.randrange(4), **_sc(rng.choice(SCORES))} for _ in range(rng.choice([0, 1, 2, 3, 6]))]
         pc.append({"n": K, "enc": tbl, "preds": preds})
-    ctx.run_cases(OPS["prediction_g"], [{**c, **flags[i % 3]} for i, c in enumerate(pc)])
+    ctx.run_cases(OPS["prediction_g"], [{**c, **flags[i % len(flags)]} for i, c in enumerate(pc)])
     # indices outside [0, n): the index rule of the store (numpy) behind the Protocol
     oor = []
     for K in (0, 1, 2, 3):
@@ -1399,25 +2604,40 @@ def _sc(s):
     return {"score": rat(s), "score32": rat(f32(s))}
 
 
+def _find_product(key, pool, terms, labels, defaults, rng, maxlen):
+    """{no term, terms} x {no label, labels} x {no default, None, defaults} x every list of length <= maxlen, each case
+    with one of the call styles (every style for the short lists)"""
+    cases = []
+    lists = [list(c) for n in range(maxlen + 1) for c in itertools.product(range(len(pool)), repeat=n)]
+    i = 0
+    for idx in lists:
+        seq = [pool[j] for j in idx]
+        for term in [_DROP] + terms:
+            for label in [_DROP] + labels:
+                for default in [_DROP, None] + defaults:
+                    c = {key: seq}
+                    if term is not _DROP:
+                        c["term"] = term
+                    if label is not _DROP:
+                        c["label"] = label
+                    if default is not _DROP:
+                        c["default"] = default
+                    styles = CALL_STYLES if len(seq) <= 1 else [CALL_STYLES[i % len(CALL_STYLES)]]
+                    i += 1
+                    for st in styles:
+                        cases.append({**c, "call": st})
+    return cases, len(lists)
+
+
 def _stage_find(ctx):
     rng = ctx.rng
     pool = POOL[:6]
     terms = [T0, T1, T2, T4, T5]
     labels = ["species", "Species", "colour", "", "zz"]
-    cases = []
-    lists = [list(c) for n in range(4) for c in itertools.product(range(4), repeat=n)]
-    for tags in lists:
-        tl = [pool[i] for i in tags]
-        for term in [None] + terms[:3]:
-            for label in [None, "species", "Species"]:
-                c = {"tags": tl}
-                if term is not None:
-                    c["term"] = term
-                if label is not None:
-                    c["label"] = label
-                cases.append(c)
+    cases, nl = _find_product("tags", pool[:4], terms[:3] + [None], ["species", "Species", None], [pool[0], pool[5]], rng,
+                              3 if ctx.thorough() else 2)
     for _ in range(ctx.budget(600, 8000)):
-        c = {"tags": [rng.choice(POOL) for _ in range(rng.choice([0, 1, 2, 3, 5, 8]))]}
+        c = {"tags": [rng.choice(POOL) for _ in range(rng.choice([0, 1, 2, 3, 5, 8, 17, 40]))], "call": rng.choice(CALL_STYLES)}
         if rng.random() < 0.6:
             c["term"] = rng.choice(terms + [None])
         if rng.random() < 0.6:
@@ -1426,13 +2646,17 @@ def _stage_find(ctx):
             c["default"] = rng.choice(POOL + [None])
         cases.append(c)
     ctx.run_cases(OPS["find_tag"], cases)
-    ctx.exhaustive["find_tag"] = (f"{len(lists)} tag lists (length <= 3 over 4 pool tags) x {{no term, 3 terms}} x "
-                                  "{no label, 2 labels}; random longer ones with defaults")
-    fcases = []
+    ctx.exhaustive["find_tag"] = (f"{nl} tag lists (length <= {3 if ctx.thorough() else 2} over 4 pool tags) x {{no term, 3 terms, "
+                                  "None}} x {no label, 2 labels, None} x {no default, None, a tag of the list, another tag}, "
+                                  "called by keyword (both orders), positionally, mixed; random longer ones")
+    # the sibling, through the same product (features over name-sharing / label-sharing terms)
+    fpool = [{"term": t, "value": rat(v)} for t, v in ((T0, 0.0), (T1, 1.0), (T2, -1.5), (T0, 1.0))]
+    fcases, nf = _find_product("features", fpool, terms[:3] + [None], ["species", "Species", None],
+                               [fpool[0], {"term": T5, "value": rat(2.0)}], rng, 3 if ctx.thorough() else 2)
     vals = [0.0, 1.0, -1.5]
     for _ in range(ctx.budget(600, 8000)):
         c = {"features": [{"term": rng.choice(terms), "value": rat(rng.choice(vals))}
-                          for _ in range(rng.choice([0, 1, 2, 3, 5]))]}
+                          for _ in range(rng.choice([0, 1, 2, 3, 5, 17]))], "call": rng.choice(CALL_STYLES)}
         if rng.random() < 0.6:
             c["term"] = rng.choice(terms + [None])
         if rng.random() < 0.6:
@@ -1443,6 +2667,9 @@ def _stage_find(ctx):
     fcases.append({"features": []})
     fcases.append({"features": [{"term": T0, "value": "0"}], "label": None, "term": None})
     ctx.run_cases(OPS["find_feature"], fcases)
+    ctx.exhaustive["find_feature"] = f"the same product as find_tag over {nf} feature lists"
+    for st in CALL_STYLES:
+        ctx.tally("find call style " + st, sum(1 for c in cases + fcases if c.get("call") == st))
 
 
 KEYS = ["animal", "", "a:b", "soundevent:animal", "Animal", " ", "ünï", "species"]
@@ -1519,13 +2746,19 @@ class _Leaf:
     __str__ = __repr__ = __format__ = __int__ = __float__ = __index__ = __bytes__ = __getitem__ = _no
 
 
-def _hash_trace(cls, seed):
-    """hash(obj) for a genuine instance of `cls` whose every field is an opaque leaf"""
+def _hash_trace(cls, seed, xorder=0):
+    """hash(obj) for a genuine instance of `cls` whose every field is an opaque leaf; a class that allows extra
+    attributes also gets two of them (leaves as well), inserted in the order `xorder` names"""
     import random
     r = random.Random(seed)
     log = []
-    hs = {f: r.randrange(1, 2 ** 60) for f in cls.model_fields}
-    obj = cls.model_construct(**{f: _Leaf(f, hs[f], log) for f in cls.model_fields})
+    names = list(cls.model_fields)
+    extras = ["+xa", "+xb"] if cls.model_config.get("extra") == "allow" else []
+    hs = {f: r.randrange(1, 2 ** 60) for f in names + extras}
+    kw = {f: _Leaf(f, hs[f], log) for f in names}
+    for f in (extras if not xorder else extras[::-1]):
+        kw[f[1:]] = _Leaf(f, hs[f], log)
+    obj = cls.model_construct(**kw)
     return hash(obj), log, hs
 
 
@@ -1543,7 +2776,8 @@ def _stage_hash_trace(ctx):
             r1, log1, _ = _hash_trace(cls, 1)
             r1b, log1b, _ = _hash_trace(cls, 1)          # another instance, same field hashes
             r2, log2, _ = _hash_trace(cls, 2)            # other field hashes
-            r1c = hash(cls.model_construct(**{f: _Leaf(f, h, []) for f, h in _hash_trace(cls, 1)[2].items()}))
+            r1c = hash(cls.model_construct(**{f.lstrip("+"): _Leaf(f, h, []) for f, h in _hash_trace(cls, 1)[2].items()}))
+            r1x, log1x, _ = _hash_trace(cls, 1, xorder=1)  # the extras inserted in the other order
         except Exception as e:  # noqa: BLE001
             ctx.symbolic_ties[name] = {"error": repr(e)[:300]}
             ctx.pre_failed.append(name)
@@ -1551,12 +2785,12 @@ def _stage_hash_trace(ctx):
                      extra={"cls": c})
             continue
         heads = sorted({p.split(".")[0] for p in log1})
-        det = (r1 == r1b == r1c) and log1 == log1b == log2
+        det = (r1 == r1b == r1c == r1x) and log1 == log1b == log2 and sorted(log1) == sorted(log1x)
         sens = r1 != r2 if log1 else True
         ctx.symbolic_ties[name] = {"paths": 1, "hashed": log1}
         rows.append((c, heads))
-        declared = list(cls.model_fields)
-        src = (f"-- hash({c}) on opaque field values: hashed {log1}; same on another instance: {det}\n"
+        declared = list(cls.model_fields) + (["+xa", "+xb"] if cls.model_config.get("extra") == "allow" else [])
+        src = (f"-- hash({c}) on opaque field values: hashed {log1}; same on another instance / extras reordered: {det}\n"
                f"example : ({'true' if det else 'false'} && {'true' if sens else 'false'}) = true := by decide\n"
                f"example : (SE.Encoding.HashRow.mk \"{c}\" {_lean_strs(declared)} {_lean_strs(heads)}).wellFormed = true "
                f":= by decide")
@@ -1590,5 +2824,5 @@ def search(ctx, failures):
     ctx.run_cases(OPS["prediction"], ({"vocab": v, "preds": p} for v in vocs for p in rng.sample(plists, 30)))
     ctx.run_cases(OPS["eq_hash"], _eq_hash_cases(ctx))
     ctx.run_cases(OPS["eq_hash"], _near_cases(ctx))
-    for st in (_stage_generic, _stage_find, _stage_init, _stage_raw):
+    for st in (_stage_generic, _stage_find, _stage_init, _stage_raw, _stage_paths, _stage_extras, _stage_histories):
         ctx.stage("search:" + st.__name__, st, ctx)
